@@ -140,6 +140,20 @@ func (f FAA) Process() (int, error) {
 	return s % 1000003, nil
 }
 
+// watcher is a subscriber that refreshes a preview: on every alert of its source it reads the
+// output of a node (the usual "parameter changed, redraw" pattern).
+type watcher struct {
+	target int
+	read   func() int
+	alerts int
+	got    []int
+}
+
+func (w *watcher) Alert(version int, state nodes.NodeState) {
+	w.alerts++
+	w.got = append(w.got, w.read())
+}
+
 // ---------------------------------------------------------------- case
 
 type Op struct {
@@ -151,7 +165,7 @@ type Op struct {
 
 type Case struct{ Ops []Op }
 
-var kinds = []string{"addValue", "addParam", "addCliParam", "setMany", "addF2", "addF3", "addFA", "addFE", "addFAA", "connectMany", "connect", "connect", "connect", "connect", "disconnect", "set", "set", "set", "read", "read", "read", "read", "state"}
+var kinds = []string{"subscribe", "addValue", "addParam", "addCliParam", "setMany", "addF2", "addF3", "addFA", "addFE", "addFAA", "connectMany", "connect", "connect", "connect", "connect", "disconnect", "set", "set", "set", "read", "read", "read", "read", "state"}
 
 func genCase(t *rapid.T) Case {
 	min := rapid.IntRange(5, 40).Draw(t, "minSteps")
@@ -178,6 +192,8 @@ type mnode struct {
 	cnt      *counter
 	out      func() int
 	set      func(int) error
+	sub      func(nodes.Alertable) // sources: AddSubscription
+	watchers []*watcher
 	setInput func(string, nodes.NodeOutputReference)
 	outRef   func() nodes.NodeOutputReference
 }
@@ -306,16 +322,16 @@ func runCase(c Case, o *vh.Obs) *vh.Failure {
 					}
 					o.Class("cli-flag-parsed")
 				}
-				ns = append(ns, &mnode{kind: 1, val: start, node: p, out: func() int { return p.Value() },
+				ns = append(ns, &mnode{kind: 1, val: start, node: p, out: func() int { return p.Value() }, sub: p.AddSubscription,
 					set:    func(v int) error { _, err := p.ApplyMessage([]byte(strconv.Itoa(v))); return err },
 					outRef: func() nodes.NodeOutputReference { return p.Out() }, changed: clock})
 			case "addValue":
 				p := nodes.Value(op.V)
-				ns = append(ns, &mnode{kind: 0, val: op.V, node: p, out: func() int { return p.Value() }, set: func(v int) error { p.Set(v); return nil },
+				ns = append(ns, &mnode{kind: 0, val: op.V, node: p, out: func() int { return p.Value() }, set: func(v int) error { p.Set(v); return nil }, sub: p.AddSubscription,
 					outRef: func() nodes.NodeOutputReference { return p.Out() }, changed: clock})
 			case "addParam":
 				p := &parameter.Value[int]{Name: fmt.Sprintf("p%d", len(ns)), DefaultValue: op.V}
-				ns = append(ns, &mnode{kind: 1, val: op.V, node: p, out: func() int { return p.Value() },
+				ns = append(ns, &mnode{kind: 1, val: op.V, node: p, out: func() int { return p.Value() }, sub: p.AddSubscription,
 					set:    func(v int) error { _, err := p.ApplyMessage([]byte(strconv.Itoa(v))); return err },
 					outRef: func() nodes.NodeOutputReference { return p.Out() }, changed: clock})
 			case "addF2":
@@ -453,6 +469,9 @@ func runCase(c Case, o *vh.Obs) *vh.Failure {
 				continue
 			}
 			n := ns[srcs[op.A%len(srcs)]]
+			if len(n.watchers) > 0 {
+				continue // every update of a watched source contains reads: bursts stay on unwatched sources
+			}
 			burst := []int{2, 255, 256, 257, 512, 1024}[op.B%6]
 			for k := 0; k < burst; k++ {
 				v := (op.V + k) % 10
@@ -466,22 +485,81 @@ func runCase(c Case, o *vh.Obs) *vh.Failure {
 			n.changed = clock
 			updates++
 			o.Class(fmt.Sprintf("set-burst/%d", burst))
+		case "subscribe":
+			// a watcher on a source that reads some node whenever the source alerts
+			if len(srcs) == 0 || len(ns) == 0 {
+				continue
+			}
+			n := ns[srcs[op.A%len(srcs)]]
+			if n.sub == nil || len(n.watchers) >= 2 {
+				continue
+			}
+			tgt := op.B % len(ns)
+			w := &watcher{target: tgt, read: ns[tgt].out}
+			n.sub(w)
+			n.watchers = append(n.watchers, w)
+			o.Class("subscriber-reads-a-node-on-alert")
 		case "set":
 			if len(srcs) == 0 {
 				continue
 			}
 			n := ns[srcs[op.A%len(srcs)]]
 			clock++
-			if err := n.set(op.V); err != nil {
-				return vh.Failf("set-error", "step %d: setting a source failed: %v", step, err)
-			}
 			if n.val == op.V {
 				o.Class("set-same-value")
 			}
+			if len(n.watchers) == 0 {
+				if err := n.set(op.V); err != nil {
+					return vh.Failf("set-error", "step %d: setting a source failed: %v", step, err)
+				}
+				n.val = op.V
+				n.changed = clock
+				n.sets++
+				updates++
+				continue
+			}
+			// with watchers the update itself contains reads: the model is updated first (the value is
+			// what the watcher must see), then every watcher's read is judged like a read action
 			n.val = op.V
 			n.changed = clock
 			n.sets++
 			updates++
+			for _, w := range n.watchers {
+				w.got = w.got[:0]
+			}
+			before := make([]int, len(ns))
+			for k, m := range ns {
+				if m.cnt != nil {
+					before[k] = m.cnt.n
+				}
+			}
+			may := map[int]bool{}
+			for _, w := range n.watchers {
+				mayExec(w.target, may, map[int]bool{})
+			}
+			if err := n.set(op.V); err != nil {
+				return vh.Failf("set-error", "step %d: setting a source failed: %v", step, err)
+			}
+			clock++
+			for wi, w := range n.watchers {
+				if len(w.got) != 1 {
+					return vh.Failf("subscriber-alert-count", "step %d: watcher %d of the source was alerted %d times by one update\nhistory: %s", step, wi, len(w.got), history(step))
+				}
+				if want := eval(w.target); w.got[0] != want {
+					return vh.Failf("stale-value", "step %d: a subscriber alerted by the update read node %d as %d; a from-scratch evaluation with the updated value gives %d\nhistory: %s", step, w.target, w.got[0], want, history(step))
+				}
+			}
+			for k, m := range ns {
+				if m.cnt != nil && m.cnt.n != before[k] {
+					if m.cnt.n > before[k]+len(n.watchers) {
+						return vh.Failf("executed-twice-in-one-read", "step %d: node %d executed %d times during one update with %d watchers\nhistory: %s", step, k, m.cnt.n-before[k], len(n.watchers), history(step))
+					}
+					if !may[k] {
+						return vh.Failf("spurious-execution", "step %d: node %d re-executed during the update of a source it does not depend on (read by a watcher)\nhistory: %s", step, k, history(step))
+					}
+					m.lastExec = clock
+				}
+			}
 		case "read":
 			if len(ns) == 0 {
 				continue
